@@ -144,7 +144,7 @@ class Rational(primitives.Expression):
         return Rational(self.Denominator, self.Numerator).__rmul__(other)
 
     def __pow__(self, other):
-        return Rational(self.Denominator**other, self.Numerator**other)
+        return Rational(self.Numerator**other, self.Denominator**other)
 
     # the attributes Expression.__setstate__ restores from __getinitargs__()
     init_arg_names = ("Numerator", "Denominator")
